@@ -109,19 +109,25 @@ end ParserModel
     at `\r`/`\n` and its leading blanks are skipped when it is read back -/
 def UrlClean (u : Url) : Prop := ∀ b ∈ u, b ≠ 10 ∧ b ≠ 13 ∧ b ≠ 32 ∧ b ≠ 9
 
+/-- the body ends in a line feed -/
+def EndsNl (b : Bytes) : Prop := ∃ pre, b = pre ++ [10]
+
 /-- Facts about the parser used by the theorems of C16. They are theorems about the parser model
     of C09/C10 (proved there, assumed here — see the trusted base):
     * `callback_prefix`  (C10.7) the concatenated callback arguments are a prefix of what the
       reader delivered, and all of it when the result is `Ok`;
     * `chunk_independent` (C10.6) a successful streaming parse yields the table of the whole-buffer
       parse of the same bytes;
-    * `info_url_trailer` (DESIGN §6.C16) appending the `INFO URL` line to a body that parses keeps
-      the table and sets the URL. -/
+    * `info_url_trailer` (DESIGN §6.C16) appending the `INFO URL` line to a body that parses AND
+      ends in a line feed keeps the table and sets the URL. (Without "ends in a line feed" this is
+      false for the real parser: a body whose unterminated last line is longer than the 160 KiB
+      window parses `Ok` — over-long-line recovery discards it — and the appended note is then
+      glued to that line and discarded with it; known finding `C16-overlong-unterminated-tail`.) -/
 structure ParserLaws (P : ParserModel) : Prop where
   callback_prefix : ∀ rx s cb, P.runRev rx = some (s, cb) →
     (∃ rest, cb ++ rest = bodyOf rx) ∧ (∀ fin t, P.finish s = some (fin, t) → cb ++ fin = bodyOf rx)
   chunk_independent : ∀ rx cb t, P.stream rx = some (cb, t) → P.parse (bodyOf rx) = some t
-  info_url_trailer : ∀ body t u, UrlClean u → P.parse body = some t →
+  info_url_trailer : ∀ body t u, UrlClean u → EndsNl body → P.parse body = some t →
     P.parse (body ++ trailer u) = some (P.setUrl t u)
 
 /-! ### One `locate_symbols` call as a state machine -/
@@ -282,10 +288,15 @@ namespace Toy
 
 def hasNl (l : Bytes) : Bool := l.any (· == 10)
 
-/-- the prefix up to and including the last `\n` -/
+/-- the prefix up to and including the last `\n` (one pass; `consumed_cons` in
+    `MdProofs.Lemmas.CacheFsToy` gives the defining equation
+    `consumed (x :: xs) = if hasNl (x :: xs) then x :: consumed xs else []`) -/
 def consumed : Bytes → Bytes
   | [] => []
-  | x :: xs => if hasNl (x :: xs) then x :: consumed xs else []
+  | x :: xs =>
+    match consumed xs with
+    | [] => if x == 10 then [x] else []
+    | c => x :: c
 
 /-- does a line start with `!`? (`atStart`: the previous byte ended a line) -/
 def hasBadFrom : Bool → Bytes → Bool
